@@ -206,8 +206,10 @@ func runC07(args []string) int {
 	}
 	wg.Wait()
 	ue, uo := c07Unique(r)
-	r.Coverage["evaluations"] = evals + ue
-	r.Coverage["distinct_nontrivial"] = len(outcomes) + uo
+	ke, ko := c07Kinds(r)
+	r.Coverage["composite_matcher_requests_per_kind_compared"] = ke
+	r.Coverage["evaluations"] = evals + ue + ke
+	r.Coverage["distinct_nontrivial"] = len(outcomes) + uo + ko
 	r.Coverage["rule"] = "one evaluation = one request answered by the indexed twin and by the plain twin after the same history (or one write judged against the uniqueness reference); index sets x document sets x mutation histories (<=2 steps) x every filter/order/limit term of the grammar; distinct_nontrivial = distinct (index config, request, non-empty result)"
 	r.Coverage["index_configs"] = len(configs)
 	r.Coverage["document_sets"] = len(sets)
@@ -545,4 +547,105 @@ func mentions(f qx.Filter, cfg ixConfig) bool {
 		}
 	}
 	return false
+}
+
+// c07Kinds: every value kind at the second position of a composite index (and alone), both
+// directions: the index fetcher matches non-leading fields with per-kind value matchers, which have
+// their own comparison code per operator.
+func c07Kinds(r *rep.Run) (evals int, distinct int) {
+	ctx := context.Background()
+	kinds := []struct {
+		name string
+		lits []string // GraphQL literals in value order
+	}{
+		{"Int", []string{"-3", "0", "7", "8"}},
+		{"Float", []string{"-1.5", "0.0", "2.25", "1000000.5"}},
+		{"String", []string{`""`, `"a"`, `"ab"`, `"b"`}},
+		{"Boolean", []string{"false", "true"}},
+		{"DateTime", []string{`"1999-12-31T23:59:59Z"`, `"2000-01-01T00:00:00Z"`, `"2000-01-01T00:00:00.000000001Z"`, `"2024-02-29T12:00:00Z"`}},
+	}
+	seen := map[string]struct{}{}
+	for _, k := range kinds {
+		configs := []string{
+			fmt.Sprintf(`type T @index(includes: [{field: "g"}, {field: "v"}]) { u: Int  g: String  v: %s }`, k.name),
+			fmt.Sprintf(`type T @index(includes: [{field: "g"}, {field: "v", direction: DESC}]) { u: Int  g: String  v: %s }`, k.name),
+			fmt.Sprintf(`type T @index(includes: [{field: "g", direction: DESC}, {field: "v"}]) { u: Int  g: String  v: %s }`, k.name),
+			fmt.Sprintf(`type T @index(unique: true, includes: [{field: "g"}, {field: "v"}, {field: "u"}]) { u: Int  g: String  v: %s }`, k.name),
+		}
+		plain, err := newQNode(fmt.Sprintf(`type T { u: Int  g: String  v: %s }`, k.name))
+		if err != nil {
+			rep.HarnessError("%v", err)
+		}
+		var ins []string
+		u := 0
+		for _, g := range []string{`"x"`, `"y"`} {
+			for _, l := range append(append([]string{}, k.lits...), "null") {
+				ins = append(ins, fmt.Sprintf("{u: %d, g: %s, v: %s}", u, g, l))
+				u++
+			}
+		}
+		ins = append(ins, fmt.Sprintf("{u: %d, v: %s}", u, k.lits[0])) // g null
+		create := fmt.Sprintf(`mutation { create_T(input: [%s]) { _docID } }`, strings.Join(ins, ", "))
+		if _, errs := world.Exec(ctx, plain.db, create); len(errs) > 0 {
+			rep.HarnessError("%s: %v", k.name, errs)
+		}
+		var reqs []string
+		ops := []string{"_eq", "_ne", "_gt", "_ge", "_lt", "_le"}
+		if k.name == "Boolean" {
+			ops = []string{"_eq", "_ne"}
+		}
+		for _, gc := range []string{`g: {_eq: "x"}, `, `g: {_in: ["x", "y"]}, `, `g: {_ne: "y"}, `, ``} {
+			for _, l := range k.lits {
+				for _, op := range ops {
+					reqs = append(reqs, fmt.Sprintf(`query { T(filter: {%sv: {%s: %s}}) { u v } }`, gc, op, l))
+				}
+			}
+			reqs = append(reqs, fmt.Sprintf(`query { T(filter: {%sv: {_eq: null}}) { u v } }`, gc), fmt.Sprintf(`query { T(filter: {%sv: {_ne: null}}) { u v } }`, gc),
+				fmt.Sprintf(`query { T(filter: {%sv: {_in: [%s, %s]}}) { u v } }`, gc, k.lits[0], k.lits[len(k.lits)-1]),
+				fmt.Sprintf(`query { T(filter: {%sv: {_nin: [%s, null]}}) { u v } }`, gc, k.lits[0]))
+			if gc != "" {
+				reqs = append(reqs, fmt.Sprintf(`query { T(filter: {%sv: {_ge: %s}}, order: {v: ASC}) { u v } }`, gc, k.lits[1]),
+					fmt.Sprintf(`query { T(filter: {%sv: {_le: %s}}, order: {v: DESC}) { u v } }`, gc, k.lits[len(k.lits)-1]))
+			}
+		}
+		for ci, sdl := range configs {
+			ix, err := newQNode(sdl)
+			if err != nil {
+				rep.HarnessError("%s: %v", sdl, err)
+			}
+			if _, errs := world.Exec(ctx, ix.db, create); len(errs) > 0 {
+				rep.HarnessError("%s indexed: %v", k.name, errs)
+			}
+			for _, q := range reqs {
+				da, ea := world.Exec(ctx, plain.db, q)
+				db2, eb := world.Exec(ctx, ix.db, q)
+				evals++
+				var a, b string
+				if strings.Contains(q, "order:") {
+					// the sequence of sort keys must agree (documents that tie may come in any order)
+					keys := []qx.OrderKey{{Field: "v"}}
+					a = keySeq(world.Rows(da, "T"), keys) + " " + fmt.Sprint(sortedInts(us(world.Rows(da, "T"))))
+					b = keySeq(world.Rows(db2, "T"), keys) + " " + fmt.Sprint(sortedInts(us(world.Rows(db2, "T"))))
+				} else {
+					a, b = fmt.Sprint(sortedInts(us(world.Rows(da, "T")))), fmt.Sprint(sortedInts(us(world.Rows(db2, "T"))))
+				}
+				if a != "[]" {
+					seen[fmt.Sprint(ci, q, a)] = struct{}{}
+				}
+				if a != b || strings.Join(ea, ";") != strings.Join(eb, ";") {
+					op := "?"
+					for _, o := range []string{"_eq", "_ne", "_gt", "_ge", "_lt", "_le", "_in", "_nin"} {
+						if strings.Contains(q, "v: {"+o) {
+							op = o
+						}
+					}
+					r.Violation(rep.Violation{Fingerprint: fmt.Sprintf("C07:composite-matcher:%s:%s", k.name, op), Summary: fmt.Sprintf("schema %s\n request %s\n scan u=%s %v, index u=%s %v", sdl, q, a, ea, b, eb),
+						Replay: map[string]any{"engine": "c07-kinds", "schema": sdl, "create": create, "request": q}})
+				}
+			}
+			ix.db.Close()
+		}
+		plain.db.Close()
+	}
+	return evals, len(seen)
 }
